@@ -27,7 +27,64 @@ func (g genericImage) At(x, y int) color.Color { return g.im.At(x, y) }
 
 // asType converts the NRGBA picture to another Go image type; ok=false when not representable.
 func asType(r *RNG, src *image.NRGBA, kind int) (image.Image, string) {
+	img, name := asTypeAt(r, src, kind, image.Point{})
+	if kind >= 1 && kind <= 7 && kind != 5 && kind != 6 && r.Chance(1, 2) {
+		// same picture with a non-zero origin (translated bounds)
+		off := image.Pt(1+r.Intn(9), 1+r.Intn(9))
+		if r.Chance(1, 4) {
+			off = image.Pt(-1-r.Intn(5), 2)
+		}
+		img, name = asTypeAt(r, src, kind, off)
+		name += "+origin"
+	}
+	if kind == 5 && r.Chance(1, 2) {
+		inner, n2 := asTypeAt(r, src, 2+r.Intn(3), image.Pt(3, 7))
+		return genericImage{inner}, "generic(" + n2 + "+origin)"
+	}
+	return img, name
+}
+
+// setAll copies src into dst (translated by off) through the generic Set.
+func setAll(dst interface {
+	Set(x, y int, c color.Color)
+}, src *image.NRGBA, off image.Point) {
 	b := src.Bounds()
+	for y := b.Min.Y; y < b.Max.Y; y++ {
+		for x := b.Min.X; x < b.Max.X; x++ {
+			dst.Set(x+off.X, y+off.Y, src.NRGBAAt(x, y))
+		}
+	}
+}
+
+func asTypeAt(r *RNG, src *image.NRGBA, kind int, off image.Point) (image.Image, string) {
+	b := src.Bounds()
+	if off != (image.Point{}) {
+		ob := b.Add(off)
+		switch kind {
+		case 1:
+			d := image.NewRGBA(ob)
+			setAll(d, src, off)
+			return d, "RGBA"
+		case 2:
+			d := image.NewGray(ob)
+			setAll(d, src, off)
+			return d, "Gray"
+		case 3:
+			im, _ := asTypeAt(r, src, 3, image.Point{})
+			p := im.(*image.Paletted)
+			d := image.NewPaletted(ob, p.Palette)
+			setAll(d, src, off)
+			return d, "Paletted"
+		case 4:
+			d := image.NewNRGBA64(ob)
+			setAll(d, src, off)
+			return d, "NRGBA64"
+		case 7:
+			d := image.NewRGBA64(ob)
+			setAll(d, src, off)
+			return d, "RGBA64"
+		}
+	}
 	switch kind {
 	case 0:
 		return src, "NRGBA"
